@@ -532,7 +532,7 @@ func init() {
 			for _, l := range lexemes {
 				us = append(us, engine.Unit{Name: "lexemes-" + strconv.Quote(l), Run: lexemeUnit(l)})
 			}
-			us = append(us, engine.Unit{Name: "raw-characters", Run: rawChars}, engine.Unit{Name: "nesting-ladder", Run: ladder}, engine.Unit{Name: "parser-reuse", Run: reuse}, engine.Unit{Name: "deep-items", Run: deepSets}, engine.RacePassUnit("C12"),
+			us = append(us, engine.Unit{Name: "raw-characters", Run: rawChars}, engine.Unit{Name: "nesting-ladder", Early: true, Run: ladder}, engine.Unit{Name: "parser-reuse", Early: true, Run: reuse}, engine.Unit{Name: "deep-items", Run: deepSets}, engine.RacePassUnit("C12"),
 				engine.Unit{Name: "simultaneous-valid", Run: simultaneous("simultaneous-valid", [2]string{"[1, 2](List)", "['a'](Set)"})},
 				engine.Unit{Name: "simultaneous-rejected", Run: simultaneous("simultaneous-rejected", [2]string{"[1 2, 3](List)", "[4, 5 6](Stack)"})},
 				engine.Unit{Name: "simultaneous-valid-and-rejected", Run: simultaneous("simultaneous-valid-and-rejected", [2]string{"[1, 2](List)", "[4 5, 6](Stack)"})})
